@@ -41,6 +41,12 @@ CHECKS = {
  "C12": ("fault_enumeration", "runtime monitor: catch_unwind around every call of a hostile workload + observed child processes on small stacks at depth 128",
          "Every deserialize call of a hostile workload (all subjects x adversarial payloads x answer scripts x value sources x built-in error types) runs under catch_unwind; a child process runs all subjects on depth-128 nestings on 2 MiB and 8 MiB stacks and its termination status is observed.",
          "Trusted: panic = unwinding panic (panic=abort builds are out of scope); depth limited to 128 as the property states.", "§4 C12"),
+ "C14": ("exploration", "runtime monitor: Display of the built-in error types vs the first structured report of the recorded keep-going run; path read-back",
+         "For every failing payload the JsonError / QueryParamError message is checked (by containment) against the first report of the recorded keep-going run: rendered path, offending value as JSON text, missing field, unknown key/value with every alternative, suggestion iff an independent Damerau-Levenshtein spec gives one, lengths, detail message; the path parsed back from the JsonError message must resolve to the quoted value.",
+         "Trusted: monitor kit; independent edit-distance spec in refmodel::specs; wording is never compared.", "§4 C14"),
+ "C20": ("exploration", "runtime monitor: differential execution of the deserr extractors against the frameworks' own extractors composed with deserr::deserialize",
+         "Every generated request (valid / ill-typed / malformed bodies, 24 content types, body limits, chunking, query strings) is run through the framework's own extractor and through the deserr extractor; status, content type, body bytes, the identity of the carried error and the accepted value must agree with framework extractor composed with deserr::deserialize.",
+         "Trusted: actix-web / axum at the versions in Cargo.lock; no socket or router involved; a defect shared by deserialize and the extractors is invisible to a differential oracle.", "§4 C20"),
 }
 PENDING = {
 }
@@ -58,7 +64,7 @@ def main():
             "thorough_cmd": f"./check {pid} --tier thorough",
             "evidence_file": f"/verif/evidence/{pid}.json",
             "replay_cmd_template": f"./check {pid} --replay {{path}}",
-            "engine": "harness",
+            "engine": "http" if pid == "C20" else ("c16" if pid == "C16" else "harness"),
             "level_claimed": {"category": level, "text": text, "design_ref": ref},
             "level_note": note,
             "technique": tech,
@@ -76,8 +82,9 @@ def main():
             "add_only": True,
         },
         "engines": [
-            {"name": "harness", "path": "/verif/harness", "serves_properties": sorted(CHECKS.keys()),
-             "kind_free_text": "Rust workspace: recording error types + instrumented value source (monitor), reference interpreter (refmodel), subject catalogue, per-property drivers; runs the real deserr code from /repo"},
+            {"name": "harness", "path": "/verif/harness", "serves_properties": sorted(k for k in CHECKS if k not in ("C16", "C20")),
+             "kind_free_text": "Rust workspace: program generator (gen), recording error types + instrumented value source (monitor), reference interpreter (refmodel), subject catalogue, per-property drivers; runs the real deserr code from /repo"},
+            {"name": "http", "path": "/verif/http", "serves_properties": ["C20"], "kind_free_text": "standalone crate driving the actix-web / axum extractors with futures::executor::block_on"},
         ],
         "checks": checks,
         "not_applicable": na,
